@@ -5,11 +5,15 @@ from concurrent.futures import ProcessPoolExecutor
 sys.path.insert(0, os.path.dirname(os.path.dirname(os.path.abspath(__file__))))
 PROPS = ["C%02d" % i for i in range(1, 19)]
 
+def base_of(prop):
+    from xstatic import core
+    return prop, sorted(o.key for o in core.run_property(prop, "/repo", "quick").violated)
+
 def work(a):
-    bid, prop = a
+    bid, prop, base = a
+    base = set(base)
     from xstatic import core
     try:
-        base = {o.key for o in core.run_property(prop, "/repo", "quick").violated}
         r = core.run_property(prop, "/tmp/bn/" + bid, "quick")
         new = [o for o in r.violated if o.key not in base]
         return bid, prop, [(o.rule, o.construct.split(".")[-1], o.message[:150]) for o in new], [e[:200] for e in r.errors]
@@ -32,7 +36,9 @@ def prep(bid):
 if __name__ == "__main__":
     ids = sys.argv[1:] or sorted(os.listdir("/verif/benign"))
     ids = [b for b in ids if prep(b)]
-    tasks = [(b, p) for b in ids for p in PROPS]
+    with ProcessPoolExecutor(16) as ex:
+        BASE = dict(ex.map(base_of, PROPS))
+    tasks = [(b, p, BASE[p]) for b in ids for p in PROPS]
     res = {}
     with ProcessPoolExecutor(16) as ex:
         for bid, prop, new, errs in ex.map(work, tasks, chunksize=2):
